@@ -18,7 +18,8 @@ INDIRECT_ALLOC = {'var:gnutls_malloc': 'gnutls_malloc', 'var:gnutls_realloc': 'g
 # libc routines that dereference the listed arguments
 MEMFN = {'memcpy': (0, 1), 'memset': (0,), 'memmove': (0, 1), 'strcpy': (0, 1), 'strcat': (0, 1), 'strlen': (0,),
          'memcmp': (0, 1), 'strncpy': (0, 1), 'strcmp': (0, 1), 'strncmp': (0, 1), 'snprintf': (0,), 'sprintf': (0,),
-         'strchr': (0,), 'strrchr': (0,), 'memchr': (0,), 'strncasecmp': (0, 1), 'strcasecmp': (0, 1)}
+         'strchr': (0,), 'strrchr': (0,), 'memchr': (0,), 'strncasecmp': (0, 1), 'strcasecmp': (0, 1),
+         'atoi': (0,), 'atol': (0,), 'atoll': (0,), 'strtol': (0,), 'strtoul': (0,), 'strtoll': (0,), 'strtoull': (0,), 'strdup': (0,), 'strstr': (0, 1)}
 
 
 def _call_of(x):
@@ -36,7 +37,8 @@ def _call_of(x):
 
 
 class AllocNull:
-    def __init__(self, run, P):
+    def __init__(self, run, P, rule='R-ALLOC-NULL'):
+        self.rule = rule
         self.run = run
         self.P = P
         self.F = P.funcs
@@ -157,9 +159,9 @@ class AllocNull:
             if org[0] == 'param':
                 res['pderef'].add(org[1])
             elif report:
-                run.oblige('R-ALLOC-NULL', False, '%s:%s:%s' % (name, org[1], how))
+                run.oblige(A.rule, False, '%s:%s:%s' % (name, org[1], how))
                 known_null = env.nullf(a) == 'Z'
-                run.violation('R-ALLOC-NULL', name, ev['loc'], 'unchecked:%s:%s' % (org[1], how.split(' ')[0]),
+                run.violation(A.rule, name, ev['loc'], 'unchecked:%s:%s' % (org[1], how.split(' ')[0]),
                               'result of %s() (%s) is %s by %s without a NULL test on this path' % (
                                   org[1], org[2].rsplit('/', 1)[-1], 'NULL and dereferenced' if known_null else 'dereferenced', how), ctx.path())
             e = env.copy()
@@ -210,7 +212,7 @@ class AllocNull:
                     c = _call_of(t['r'])
                     if c and c.get('fn') in A.maynull:
                         if report:
-                            run.instance('R-ALLOC-NULL', '%s: %s = %s()' % (name, short(t['l']), c['fn']))
+                            run.instance(A.rule, '%s: %s = %s()' % (name, short(t['l']), c['fn']))
                         set_mark(e, a, ('ctor', c['fn'], ev['loc']))
                     else:
                         ra = ap(t['r'])
@@ -231,7 +233,7 @@ class AllocNull:
                     c = _call_of(d['init'])
                     if c and c.get('fn') in A.maynull:
                         if report:
-                            run.instance('R-ALLOC-NULL', '%s: %s = %s()' % (name, d['n'], c['fn']))
+                            run.instance(A.rule, '%s: %s = %s()' % (name, d['n'], c['fn']))
                         set_mark(e, a, ('ctor', c['fn'], ev['loc']))
                     else:
                         ra = ap(d['init'])
@@ -328,3 +330,43 @@ def run(run, P, only=None):
             run.oblige('R-ALLOC-NULL', True, desc)
     run.stats['allocnull_solver_steps'] = A.steps
     return A
+
+
+def run_nullret(run, P, units=None):
+    """R-NULL-RET (C02): the same typestate for unit-local helpers that are not allocators: a static function of the receive surface that
+    returns the NULL constant on some path and something else on another (a tokenizer that finds no separator, a look-up that finds
+    nothing) hands back a maybe-NULL pointer, and what the peer sent decides which.  Every call site tests the result before it is
+    dereferenced or given to a C library routine that dereferences it (atoi, strcmp, memcpy ...).  The sibling call sites of such a helper
+    usually do test it; the one that does not is a crash a peer can trigger (`atoi(value)` on a status line without a status)."""
+    run.rule('R-NULL-RET')
+    A = AllocNull(run, P, rule='R-NULL-RET')
+    S = set()
+    for f in P.lib_funcs():
+        if not f['ret'].get('p') or not f.get('static'):
+            continue
+        if units and f['unit'] not in units:
+            continue
+        rn = rnn = False
+        for b, ev in P.events(f):
+            t = ev['e']
+            if t.get('k') == 'ret' and t.get('e') is not None:
+                if is_null_const(t['e']):
+                    rn = True
+                else:
+                    rnn = True
+        if rn and rnn:
+            S.add(f['name'])
+    A.compute()
+    S -= A.maynull           # allocating helpers are judged by R-ALLOC-NULL already
+    run.notes.append('maybe-NULL helpers (static, return NULL on some path): ' + ', '.join(sorted(S)))
+    A.maynull = set(S)
+    ncalls = 0
+    for f in sorted(P.lib_funcs(), key=lambda f: f['name']):
+        if not any(isinstance(t, dict) and t.get('k') == 'call' and t.get('fn') in S for b, ev in P.events(f) for t in walk(ev['e'])):
+            continue
+        ncalls += 1
+        A.analyze(f, report=True)
+    for (rule, desc) in list(run._inst_seen):
+        if rule == 'R-NULL-RET':
+            run.oblige('R-NULL-RET', True, desc)
+    run.require(ncalls >= (3 if run.cfg == 'base' else 1) or run.fixture_mode, 'R-NULL-RET: fewer than 3 functions that call a maybe-NULL helper found')
